@@ -436,6 +436,8 @@ static void judge_opt(const Inst &I, const GenInfo &gi, int kind, const Run &r, 
         if (!feasible) key = "infeasible-result";
         else if (gi.exact && (kind == INC_SOLVE || kind == AV_SOLVE) && degenerate_stall_signature(I, r)) key = "degenerate-stall";
         else if (kind == STATIC_SOLVE && r.refineExhausted > 0) key = "refine-cap-exhausted";
+        // the solvers accept Lagrange multipliers down to -1e-4 as non-negative: a stop that costs less than 1e-7 of the optimum is that tolerance
+        else if (f - (double)o.f <= 1e-7 * (1 + (double)o.f)) key = "suboptimal(within-the-solver's-multiplier-tolerance)";
         res.violate(pfx + key, JObj().num("dist", dmax).num("scale", scale).num("cost", f).num("optimal_cost", (double)o.f).str("oracle_route", o.route).raw("optimum", ox.done()).raw("run", run_json(I, kind, r)).done());
     }
 }
@@ -456,6 +458,7 @@ static void case_opt(const Args &a, long idx, bool wantDesc, CaseResult &res, bo
     Run inc; run_kind(I, INC_SOLVE, inc);
     if (inc.threw) { res.inconclusive = "inc-threw (C01 business)"; return; }
     for (char f : inc.flagged) if (f) { res.count("skipped_flagged_instances"); res.inconclusive = ""; return; }
+    set_stage("qp-oracle(reference solver of the harness)");
     qp::Result o = (I.n() <= 6 && I.cs.size() <= 8) ? qp::solve_enum(I) : qp::solve(I, I.n() > 100 ? 60000 : 200000);
     if (!o.certified) { res.inconclusive = "oracle-not-certified"; return; }
     res.count(std::string("oracle_route.") + o.route);
